@@ -317,3 +317,60 @@ func ConstUnder(v ssa.Value, depth int) constant.Value {
 	}
 	return ConstUnder(pick, depth-1)
 }
+
+// MayReachCtx: can an instruction satisfying pred be executed when fn is entered with the current parameter
+// bindings? Branches whose condition evaluates to a constant under the bindings (a flag parameter passed as a
+// literal) are followed only in the feasible direction; static calls to functions accepted by local are entered
+// with their parameters bound to the call's arguments.
+func MayReachCtx(fn *ssa.Function, local func(*ssa.Function) bool, pred func(ssa.Instruction) bool, depth int) bool {
+	if fn == nil || len(fn.Blocks) == 0 {
+		return false
+	}
+	seen := map[*ssa.BasicBlock]bool{}
+	work := []*ssa.BasicBlock{fn.Blocks[0]}
+	for len(work) > 0 {
+		b := work[len(work)-1]
+		work = work[:len(work)-1]
+		if seen[b] {
+			continue
+		}
+		seen[b] = true
+		for _, in := range b.Instrs {
+			if pred(in) {
+				return true
+			}
+			if depth > 0 {
+				var callee *ssa.Function
+				switch x := in.(type) {
+				case *ssa.Call:
+					callee = x.Call.StaticCallee()
+					if callee == nil {
+						callee = ClosureArg(x.Call.Value)
+					}
+				case *ssa.Defer:
+					callee = x.Call.StaticCallee()
+				}
+				if callee != nil && callee != fn && local(callee) {
+					undo := BindCall(in)
+					hit := MayReachCtx(callee, local, pred, depth-1)
+					undo()
+					if hit {
+						return true
+					}
+				}
+			}
+		}
+		if iff := BlockIf(b); iff != nil {
+			if c := ConstUnder(iff.Cond, 6); c != nil && c.Kind() == constant.Bool {
+				if constant.BoolVal(c) {
+					work = append(work, b.Succs[0])
+				} else {
+					work = append(work, b.Succs[1])
+				}
+				continue
+			}
+		}
+		work = append(work, b.Succs...)
+	}
+	return false
+}
